@@ -1,5 +1,6 @@
 import NetVerif.Model.Qpack
-import NetVerif.Model.QpackHuffTable
+import NetVerif.Model.QpackHuffman
+import NetVerif.Proofs.C04
 import NetVerif.Gen.C33
 import NetVerif.Proofs.Lemmas.QpackRT
 import NetVerif.Proofs.Lemmas.H3Safe
@@ -20,9 +21,10 @@ theorem gen_staticTable_eq : Gen.C33.staticTable = Model.QpackStatic.staticTable
 
 theorem gen_staticTable_length : Gen.C33.staticTable.length = 99 := by decide +kernel
 
+/-- The Huffman table extracted for C33 from http2/hpack/tables.go is the table the C04 Huffman
+model and proofs are about (both regenerated on every run). -/
 theorem gen_huffman_eq :
-    Gen.C33.huffmanCodes = Model.QpackHuffTable.huffmanCodes ∧
-    Gen.C33.huffmanCodeLen = Model.QpackHuffTable.huffmanCodeLen := by decide +kernel
+    Gen.C33.huffmanCodes = Gen.Huffman.codes ∧ Gen.C33.huffmanCodeLen = Gen.Huffman.lens := by decide +kernel
 
 theorem gen_error_codes_eq :
     Gen.C33.errQPACKDecompressionFailed = cQpackDecompressionFailed ∧
@@ -32,18 +34,41 @@ theorem gen_error_codes_eq :
 
 /-! ### Round trip -/
 
-/-- Full round trip through the regenerated static table: for every field list whose
-lower-cased form the decoder is specified to accept, `decode (encode fs)` returns exactly the
-lower-cased printable-ASCII-named fields, in order, never-index flags and values preserved,
-and consumes exactly the encoded section. -/
-theorem roundtrip (H : Huff) (hH : HuffOK H) (fs : List Field)
-    (hsize : ∀ f ∈ fs, f.name.length < 2 ^ 62 ∧ f.value.length < 2 ^ 62)
+/-- The Huffman hypotheses hold for the HPACK Huffman model of C04 (`decode_appendHuffman`,
+`appendHuffman_eq_encode`, `encodeLength_eq` over the regenerated code table). -/
+theorem huffOK : HuffOK Model.QpackHuffman.huff := by
+  constructor
+  · intro s hs
+    show Model.QpackHuffman.dec (Model.Huffman.appendHuffman s) = some s
+    unfold Model.QpackHuffman.dec
+    rw [NetVerif.Proofs.C04.decode_appendHuffman s hs]
+  · intro s hs
+    show (Model.Huffman.appendHuffman s).length = Model.Huffman.encodeLength s
+    rw [NetVerif.Proofs.C04.appendHuffman_eq_encode s hs, NetVerif.Proofs.C04.encodeLength_eq]
+
+/-- The encoder's choice "Huffman only when shorter" on the concrete codec: the literal carries
+the Huffman form exactly when `HuffmanEncodeLength(s) < len(s)`, and its H bit says which. -/
+theorem string_choice (first p : Nat) (s : List Nat) :
+    appendPrefixedString Model.QpackHuffman.huff first p s =
+      if Model.Huffman.encodeLength s < s.length then
+        appendPrefixedInt (first + 2 ^ p) p (Model.Huffman.encodeLength s) ++ Model.Huffman.appendHuffman s
+      else appendPrefixedInt first p s.length ++ s := rfl
+
+/-- **Full round trip, no Huffman hypothesis**: with the HPACK Huffman model of C04 and the
+regenerated static table, for every list of fields over byte strings whose lower-cased form the
+decoder is specified to accept, `decode (encode fs)` returns exactly the lower-cased
+printable-ASCII-named fields, in order, never-index flags and values preserved, and consumes
+exactly the encoded section. -/
+theorem roundtrip (fs : List Field)
+    (hsize : ∀ f ∈ fs, f.name.length < 2 ^ 62 ∧ f.value.length < 2 ^ 62 ∧ Bytes f.value)
     (hwf : PseudoFirst false (expected fs))
     (rest : List Nat) (s : St) (hdead : s.dead = false)
-    (hdata : s.data = encode H Gen.C33.staticTable fs ++ rest)
-    (hlim : s.lim = ((encode H Gen.C33.staticTable fs).length : Int)) :
-    ∃ s', decode H Gen.C33.staticTable s = ⟨expected fs, .ok () s'⟩ ∧ s'.lim = 0 ∧ s'.data = rest ∧ s'.dead = false :=
-  decode_encode H hH Gen.C33.staticTable (by rw [gen_staticTable_length]; decide) fs hsize hwf rest s hdead hdata hlim
+    (hdata : s.data = encode Model.QpackHuffman.huff Gen.C33.staticTable fs ++ rest)
+    (hlim : s.lim = ((encode Model.QpackHuffman.huff Gen.C33.staticTable fs).length : Int)) :
+    ∃ s', decode Model.QpackHuffman.huff Gen.C33.staticTable s = ⟨expected fs, .ok () s'⟩ ∧
+      s'.lim = 0 ∧ s'.data = rest ∧ s'.dead = false :=
+  decode_encode Model.QpackHuffman.huff huffOK Gen.C33.staticTable (by rw [gen_staticTable_length]; decide)
+    fs hsize hwf rest s hdead hdata hlim
 
 /-- Non-vacuity: a field list with a pseudo-header, an upper-case name, a never-indexed field and a
 name that is dropped satisfies the hypotheses. -/
